@@ -69,7 +69,9 @@ func (h HTLC) Validate() error {
 	if h.ExpirationHeight == 0 {
 		return errorsmod.Wrapf(ErrInvalidExpirationHeight, "expire height cannot be 0")
 	}
-	if h.Timestamp == 0 {
+	// a plain HTLC may carry no timestamp (GetHashLock then hashes the secret alone and
+	// CreateHTLC accepts it); only an HTLT is created with a checked, non-zero timestamp
+	if h.Transfer && h.Timestamp == 0 {
 		return errorsmod.Wrapf(ErrInvalidTimestamp, "timestamp cannot be 0")
 	}
 	if err := ValidateAmount(h.Transfer, h.Amount); err != nil {
